@@ -5,6 +5,8 @@
 From Coq Require Import String ZArith List Bool.
 Import ListNotations.
 Require Import Grist.Model.JsSchema Grist.Proofs.JsSchema_proofs GristGen.PySchema_gen GristGen.TsSchema_gen.
+Require Import Grist.Proofs.JsSchema_bridge.
+Require GristGen.JsGen_gen GristGen.TsGen_gen.
 Open Scope Z_scope.
 
 (* app/common/schema.ts is, character for character, what the generator prints for the current Python
@@ -65,3 +67,79 @@ Example C38_nonvacuous :
 Proof.
   cbv zeta. repeat split; try (vm_compute; reflexivity); vm_compute; discriminate.
 Qed.
+
+(* ================= the CODE, translated from /repo on every run =================
+   GristGen.JsGen_gen: get_ts_type and main of sandbox/gen_js_schema.py, get_pure_type and get_type_default of
+   usertypes.py (harness/js2v.py).  GristGen.TsGen_gen: extractTypeFromColType and getDefaultForType of
+   app/common/gristTypes.ts (harness/ts2v.py).  Bridging obligations: pointwise equal to the hand model. *)
+
+Theorem C38_bridge_main : forall tt s, JsGen_gen.main tt s = Some (render tt s).
+Proof. exact gen_main_eq. Qed.
+
+Theorem C38_bridge_get_ts_type : forall tt s ty, JsGen_gen.get_ts_type tt s ty = get_ts_type tt ty.
+Proof. exact gen_get_ts_type_eq. Qed.
+
+Theorem C38_bridge_get_type_default : forall pyd ct, JsGen_gen.get_type_default pyd ct = py_col_default pyd ct.
+Proof. exact gen_get_type_default_eq. Qed.
+
+Theorem C38_bridge_extractTypeFromColType : forall s, TsGen_gen.extractTypeFromColType s = take_until 58 s.
+Proof. exact ts_extract_eq. Qed.
+
+Theorem C38_bridge_getDefaultForType : forall pairs ct,
+  zs_mem (take_until 58 ct) js_object_prototype_names = false ->
+  TsGen_gen.getDefaultForType pairs ct false = ts_col_default (first_components pairs) ct.
+Proof. exact ts_getDefaultForType_eq. Qed.
+
+(* The main statements again, now about the translated functions. *)
+
+(* what the generator script writes for the current schema.py is exactly app/common/schema.ts *)
+Theorem C38_code_schema_text_equal : JsGen_gen.main js_ts_types py_schema = Some schema_ts_text.
+Proof. rewrite gen_main_eq, C38_schema_text_equal. reflexivity. Qed.
+
+(* the script never raises, whatever the schema *)
+Theorem C38_code_main_total : forall tt s, exists text, JsGen_gen.main tt s = Some text.
+Proof. intros tt s. exists (render tt s). apply gen_main_eq. Qed.
+
+Theorem C38_code_render_injective : forall tt1 tt2 s1 s2 text,
+  schema_ok s1 = true -> schema_ok s2 = true ->
+  JsGen_gen.main tt1 s1 = Some text -> JsGen_gen.main tt2 s2 = Some text -> schema_core s1 = schema_core s2.
+Proof.
+  intros tt1 tt2 s1 s2 text H1 H2 E1 E2. rewrite gen_main_eq in E1, E2.
+  injection E1 as E1. injection E2 as E2. apply (render_injective tt1 tt2 s1 s2 H1 H2). congruence.
+Qed.
+
+Theorem C38_code_schema_ts_determines_schema : forall tt s,
+  schema_ok s = true -> JsGen_gen.main tt s = Some schema_ts_text -> schema_core s = schema_core py_schema.
+Proof.
+  intros tt s Hs E.
+  exact (C38_code_render_injective tt js_ts_types s py_schema schema_ts_text Hs C38_real_schema_ok E C38_code_schema_text_equal).
+Qed.
+
+(* For every column type whose pure type is not the name of a property of Object.prototype, what
+   getDefaultForType(colType) returns is what Node receives for get_type_default(colType). *)
+Theorem C38_code_defaults_equal : forall ct : list Z,
+  zs_mem (TsGen_gen.extractTypeFromColType ct) js_object_prototype_names = false ->
+  ts_wire (TsGen_gen.getDefaultForType ts_default_pairs ct false) =
+    py_wire (JsGen_gen.get_type_default py_type_defaults ct) /\
+  ts_wire (TsGen_gen.getDefaultForType ts_default_pairs ct false) <> WBad.
+Proof.
+  intros ct H. rewrite ts_extract_eq in H. rewrite (ts_getDefaultForType_eq _ _ H), gen_get_type_default_eq.
+  exact (C38_defaults_equal (take_until 58 ct)).
+Qed.
+
+(* The hypothesis cannot be dropped: _defaultValues["constructor"] finds Object.prototype.constructor, a
+   function, whose element 0 is undefined -- Node gets undefined where Python gives None.  Twelve names, none
+   of them a Grist type; the full-strength statement (every string) is refuted by this one. *)
+Definition C38_defaults_equal_for_every_string : Prop := forall ct : list Z,
+  ts_wire (TsGen_gen.getDefaultForType ts_default_pairs ct false) = py_wire (JsGen_gen.get_type_default py_type_defaults ct) /\
+  ts_wire (TsGen_gen.getDefaultForType ts_default_pairs ct false) <> WBad.
+
+Theorem C38_defaults_refuted_on_prototype_names : ~ C38_defaults_equal_for_every_string.
+Proof. intro H. destruct (H (str "constructor"%string)) as [_ N]. apply N. vm_compute. reflexivity. Qed.
+
+Example C38_code_nonvacuous :
+  zs_mem (TsGen_gen.extractTypeFromColType (str "Ref:Table1"%string)) js_object_prototype_names = false /\
+  TsGen_gen.getDefaultForType ts_default_pairs (str "Ref:Table1"%string) false = TsInt 0 /\
+  JsGen_gen.get_type_default py_type_defaults (str "Ref:Table1"%string) = PyInt 0 /\
+  TsGen_gen.getDefaultForType ts_default_pairs (str "constructor"%string) false = TsUndefined.
+Proof. repeat split; vm_compute; reflexivity. Qed.
